@@ -65,6 +65,24 @@ def cases(rng, tier):
                  "k0": 0, "t0": 0, "dt": 0.5, "runs": 2}
             out.append({"id": f"t{k}{kind}", "family": "fortran", "method": m, "tag": "fortran-twin-constants",
                         "variants": ["plain", "after-other"]})
+    # hand-made: conditional expressions nested in the branches of conditional expressions (their expansion emits
+    # statements whose guards are conjunctions of several flags: the order of the conjuncts must not come from a set)
+    C = fc.C
+    for k in range(4):
+        inner = ["if", ["cmp", ">", V("<p>k"), C(1)], C(3), C(4)]
+        inner2 = ["if", ["cmp", "<", V("<dt>"), C(2)], V("<p>k"), ["if", ["cmp", ">", V("<t>"), C(0)], C(5), C(6)]]
+        e = [["if", ["cmp", ">", V("<p>k"), C(2)], C(1), inner],
+             ["if", ["cmp", ">", V("<p>k"), C(2)], inner, inner2],
+             ["+", [["if", ["cmp", ">", V("<p>k"), C(0)], inner2, C(2)], ["if", ["cmp", "<", V("<t>"), C(1)], inner, C(0)]]],
+             ["if", ["cmp", ">", V("<p>k"), C(2)], ["if", ["cmp", ">", V("<dt>"), C(0)], inner, C(7)], inner2]][k]
+        prog = [["stmt", ["call", ["k1"], "<func>rhs", [V("<t>"), V("<state>y")], []]],
+                ["stmt", ["assign", "<p>k", None, ["+", [V("<p>k"), e]], []]],
+                ["stmt", ["assign", "<state>y", None, ["+", [V("<state>y"), ["*", [V("<p>k"), V("k1")]]]], []]],
+                ["stmt", ["yield", V("<state>y"), V("<t>"), "final", "y"]]]
+        m = {"phases": [{"name": "p0", "next": "p0", "prog": prog}], "initial": "p0", "y0": [1, 2, -1], "exact": False,
+             "k0": 0, "t0": 0, "dt": 0.5, "runs": 2}
+        out.append({"id": f"n{k}", "family": "fortran", "method": m, "tag": "fortran-nested-conditionals",
+                    "variants": ["plain", "perm1", "after-other"]})
     for k in range(n_p):
         c = c01.g_case(rng)
         c.update({"id": f"p{k}", "family": "python", "tag": "python-family",
